@@ -2,6 +2,7 @@ package mcprops
 
 import (
 	"fmt"
+	"strconv"
 	"sort"
 	"strings"
 	"time"
@@ -17,7 +18,7 @@ import (
 func init() {
 	Props["C18"] = &harness.Prop{
 		ID:             "C18",
-		Rule:           "sequential: explicit-state breadth-first search over the real queue for capacities 1..8 with operations {Add(next id), GetMessages}; states canonicalised by subtracting the smallest key; every transition compared with a slice model; plus runs of 10^4 additions per capacity with a snapshot after every addition. concurrent: capacities 1 and 2, thread sets {adder(2 adds), adder(1 add), reader(2 snapshots)} and {adder(3 adds), reader, reader}, scheduling points at every lock operation and at every function and loop entry of the queue package, all schedules with <=2 (quick) / <=3 (thorough) preemptions; every recorded call/return history is checked for linearizability against the slice model by exhaustive search over linearisation orders. Non-trivial = distinct schedule trace / distinct canonical state",
+		Rule:           "sequential: explicit-state breadth-first search over the real queue for capacities 1..8 with operations {Add(next id), GetMessages}; states canonicalised by subtracting the smallest key; every transition compared with a slice model; plus runs of 7x10^4 additions per capacity (past every 16-bit counter) with a snapshot after every addition, and runs across the 2^7, 2^8, 2^15, 2^16, 2^31 and 2^32th addition (the exported index is set to what that many additions leave, on 64-bit builds). concurrent: capacities 1 and 2, thread sets {adder(2 adds), adder(1 add), reader(2 snapshots)} and {adder(3 adds), reader, reader}, scheduling points at every lock operation and at every function and loop entry of the queue package, all schedules with <=2 (quick) / <=3 (thorough) preemptions; every recorded call/return history is checked for linearizability against the slice model by exhaustive search over linearisation orders. Non-trivial = distinct schedule trace / distinct canonical state",
 		Assumptions:    []string{"canonicalisation: Add and GetMessages depend only on the order and number of the keys and on NextIndex being above every key, which is asserted in every state", "interleavings inside the unsynchronised code are explored at function/loop-entry granularity (yield points inserted by the instrumenter); the memory-model clause 'no data race' is outside what the cooperative scheduler observes and is only touched by the auxiliary free-running -race pass", "RWMutex writer preference is not modelled (superset of interleavings)"},
 		Pre:            c18Sequential,
 		Scenarios:      c18Scenarios,
@@ -128,7 +129,7 @@ func c18Sequential(r *ev.Run) {
 		// long run: state reached far from the initial state behaves like the canonical one
 		q := cq.NewCircularQueue(n)
 		var model []int
-		for id := 1; id <= 10000; id++ {
+		for id := 1; id <= 70000; id++ { // past every 16-bit counter
 			q.Add(msg(id))
 			model = modelAdd(model, n, id)
 			got := ids(q.GetMessages())
@@ -140,6 +141,33 @@ func c18Sequential(r *ev.Run) {
 			if len(q.Items) > n {
 				fail("holds-more-than-capacity", n, fmt.Sprintf("%d additions", id), n, len(q.Items))
 				break
+			}
+		}
+	}
+	// far from the initial state: the queue as K-n earlier additions leave it (the
+	// exported index set, then filled through Add), for K round every power of two
+	// an index type might stop at
+	if strconv.IntSize == 64 {
+		for n := 1; n <= 8; n++ {
+			for _, k := range []int{1 << 7, 1 << 8, 1 << 15, 1 << 16, 1 << 31, 1 << 32} {
+				q := cq.NewCircularQueue(n)
+				base := k - n - 3
+				q.NextIndex = base
+				var model []int
+				for id := 1; id <= 2*n+8; id++ {
+					q.Add(msg(id))
+					model = modelAdd(model, n, id)
+					got := ids(q.GetMessages())
+					trans += 2
+					if fmt.Sprint(got) != fmt.Sprint(model) {
+						fail("snapshot-differs-from-last-N", n, fmt.Sprintf("%d additions after %d earlier ones", id, base), model, got)
+						break
+					}
+					if len(q.Items) > n {
+						fail("holds-more-than-capacity", n, fmt.Sprintf("%d additions after %d earlier ones", id, base), n, len(q.Items))
+						break
+					}
+				}
 			}
 		}
 	}
